@@ -93,3 +93,79 @@ Print Assumptions C09_fixed10_stays_nonpositive.
 Print Assumptions C09_ms_at_scaled.
 Print Assumptions C09_ms_round_trip_rates.
 Print Assumptions C09_round_trip_rate_exact.
+
+(* ---- BEGIN growth-rate round trip (generated with harness/mkprops.py from Proofs/MsRoundTripGrowth.v) ---- *)
+(* Growth rates through graph -> to_ms -> from_ms: composition of C07's to_ms_growth with C08's growth refinement
+   (Proofs/FromMsGrowth.v).  Stated on the prefix of the emitted events with time <= T/(4*N0): the final graph stores
+   epoch sizes, the growth rate the interpreter tracks is consumed when the next size/growth event closes the epoch.
+   ms_round_trip_growth: after interpreting that prefix, the current epoch of deme i carries (numerically) a / (4*N0)
+   with a numerically the rate to_ms computed for the epoch of g owning T (or both are zero).  Hypotheses OkEv (the
+   converted rates are numbers) and DivMono (division by 4*N0 preserves the order of the event times and T). *)
+From Demes Require Import Model.InGen Model.ToMs Proofs.MsGrowth Proofs.FromMsRefine Proofs.FromMsGrowth Proofs.MsRoundTripGrowth.
+Section C09g.
+  Context {N : NumOps} {L : NumLaws N}.
+
+  Theorem C09g_ms_at_prefix c T :
+    ms_at c T = foldM apply_ev (filter (leT T) (all_events c)) (init_state c).
+  Proof. exact (ms_at_prefix c T). Qed.
+
+  Theorem C09g_ms_round_trip_growth_sem g0 g N0 n evs evs' T i di k e alpha :
+    in_generations g0 = Ok g -> Valid g ->
+    to_ms_unscaled g0 N0 = Ok (n, evs) ->
+    to_ms_events g0 N0 = Ok (n, evs') ->
+    DivMono N0 (T :: map ev_time evs) ->
+    ok T -> nle n0 T = true ->
+    nth_error (g_demes g) i = Some di -> nlt T (d_start di) = true ->
+    nth_error (d_epochs di) k = Some e -> nlt T (e_start e) = true -> nle (e_end e) T = true ->
+    growth_rate (nmul n4 N0) e = Ok alpha ->
+    let c' := mkCmd n true n0 [] evs' in
+    exists st' p' r,
+      ms_at c' (dv N0 T) = Ok st' /\
+      foldM apply_ev (filter (leT (dv N0 T)) evs') (init_state c') = Ok st' /\
+      nth_error (st_pops st') i = Some p' /\ alive p' = true /\
+      (mp_alpha p' = nfloat r \/ (mp_alpha p' = n0 /\ r = n0)) /\ SameRate r alpha.
+  Proof. exact (ms_round_trip_growth_sem g0 g N0 n evs evs' T i di k e alpha). Qed.
+
+  Theorem C09g_ms_round_trip_growth_interp g0 g N0 n evs evs' T s0 s st' i p' :
+    in_generations g0 = Ok g -> Valid g ->
+    to_ms_unscaled g0 N0 = Ok (n, evs) ->
+    to_ms_events g0 N0 = Ok (n, evs') ->
+    (forall x : num, nmul x n1 = x) -> ok N0 ->
+    DivMono N0 (T :: map ev_time evs) ->
+    (forall e, In e evs -> OkEv N0 e) ->
+    let c' := mkCmd n true n0 [] evs' in
+    init_bstate c' N0 = Ok s0 ->
+    foldM (run_group N0) (group_by_time (filter (leT (dv N0 T)) evs')) s0 = Ok s ->
+    foldM apply_ev (filter (leT (dv N0 T)) evs') (init_state c') = Ok st' ->
+    nth_error (st_pops st') i = Some p' -> alive p' = true ->
+    exists d, nth_error (b_demes s) i = Some d /\ HeadGrowth N0 d (mp_alpha p').
+  Proof. exact (ms_round_trip_growth_interp g0 g N0 n evs evs' T s0 s st' i p'). Qed.
+
+  Theorem C09g_ms_round_trip_growth g0 g N0 n evs evs' T i di k e alpha s0 s :
+    in_generations g0 = Ok g -> Valid g ->
+    to_ms_unscaled g0 N0 = Ok (n, evs) ->
+    to_ms_events g0 N0 = Ok (n, evs') ->
+    (forall x : num, nmul x n1 = x) -> ok N0 ->
+    DivMono N0 (T :: map ev_time evs) ->
+    (forall e, In e evs -> OkEv N0 e) ->
+    ok T -> nle n0 T = true ->
+    nth_error (g_demes g) i = Some di -> nlt T (d_start di) = true ->
+    nth_error (d_epochs di) k = Some e -> nlt T (e_start e) = true -> nle (e_end e) T = true ->
+    growth_rate (nmul n4 N0) e = Ok alpha ->
+    init_bstate (mkCmd n true n0 [] evs') N0 = Ok s0 ->
+    foldM (run_group N0) (group_by_time (filter (leT (dv N0 T)) evs')) s0 = Ok s ->
+    exists d a r, nth_error (b_demes s) i = Some d /\
+      (a = nfloat r \/ (a = n0 /\ r = n0)) /\ SameRate r alpha /\
+      HeadGrowth N0 d a.
+  Proof. exact (ms_round_trip_growth g0 g N0 n evs evs' T i di k e alpha s0 s). Qed.
+
+End C09g.
+
+
+
+Print Assumptions C09g_ms_at_prefix.
+Print Assumptions C09g_ms_round_trip_growth_sem.
+Print Assumptions C09g_ms_round_trip_growth_interp.
+Print Assumptions C09g_ms_round_trip_growth.
+
+(* ---- END growth-rate round trip ---- *)
